@@ -65,6 +65,10 @@ def _item_class(puan):
     if puan not in _ITEM:
         class Item(puan.variable):
             pass
+        # reachable as a module attribute, as a user's class would be (pickle looks classes up by module and qualified name)
+        Item.__qualname__ = "Item"
+        Item.__module__ = __name__
+        globals()["Item"] = Item
         _ITEM[puan] = Item
     return _ITEM[puan]
 
